@@ -14,6 +14,7 @@ from concurrent.futures import ThreadPoolExecutor
 HERE = os.path.dirname(os.path.abspath(__file__))
 VERIF = os.path.dirname(HERE)
 REPO = os.environ.get("GBSA_REPO", "/repo")
+JOBS = int(os.environ.get("GBSA_JOBS", "16"))
 sys.path.insert(0, HERE)
 
 
@@ -50,13 +51,7 @@ def run_one(m):
         shutil.rmtree(d, ignore_errors=True)
 
 
-def main():
-    ap = argparse.ArgumentParser()
-    ap.add_argument("--jobs", type=int, default=16)
-    ap.add_argument("--only", default=None)
-    ap.add_argument("--checks", default=None)
-    ap.add_argument("--quiet", action="store_true")
-    a = ap.parse_args()
+def collect_items(only=None, checks=None):
     from mutants import MUTANTS, BENIGN
     items = []
     for m in MUTANTS:
@@ -71,30 +66,55 @@ def main():
                 mt = json.load(open(meta))
                 if mt.get("caught_by"):
                     items.append(dict(id="seed-" + sid, patch=os.path.join(seeded, sid, "patch.diff"), checks=mt["caught_by"], kind="mutant"))
-    if a.only:
-        keep = set(a.only.split(","))
+    if only:
+        keep = set(only)
         items = [m for m in items if m["id"] in keep]
-    if a.checks:
-        ck = set(a.checks.split(","))
+    if checks:
+        ck = set(checks)
         items = [dict(m, checks=[c for c in m["checks"] if c in ck]) for m in items]
         items = [m for m in items if m["checks"]]
-    bad = 0
-    skipped = 0
-    with ThreadPoolExecutor(max_workers=a.jobs) as ex:
+    return items
+
+
+def run_items(items, jobs=16, quiet=True, out=print):
+    """-> summary dict; every variant is applied to its own scratch copy (removed afterwards)."""
+    bad = []
+    skipped = []
+    fired = 0
+    silent = 0
+    with ThreadPoolExecutor(max_workers=jobs) as ex:
         for m, status, res in ex.map(run_one, items):
             if status != "RAN":
-                skipped += 1
-                print(f"{m['id']:28s} {status}")
+                skipped.append(m["id"])
+                if not quiet:
+                    out(f"{m['id']:28s} {status}")
                 continue
             for chk, (rc, line) in res.items():
                 want = 1 if m["kind"] == "mutant" else 0
                 ok = rc == want
-                if not ok:
-                    bad += 1
-                if not ok or not a.quiet:
-                    print(f"{m['id']:28s} {chk} rc={rc} {'ok ' if ok else 'UNEXPECTED (want %d)' % want} {line}")
-    print(f"selftest: {len(items)} variants, {skipped} skipped, {bad} unexpected outcomes")
-    return 1 if bad else 0
+                if ok:
+                    if want:
+                        fired += 1
+                    else:
+                        silent += 1
+                else:
+                    bad.append({"variant": m["id"], "check": chk, "exit": rc, "wanted": want, "first_line": line})
+                if not ok or not quiet:
+                    out(f"{m['id']:28s} {chk} rc={rc} {'ok ' if ok else 'UNEXPECTED (want %d)' % want} {line}")
+    return {"variants": len(items), "fired_as_required": fired, "silent_as_required": silent, "skipped_anchor_absent": skipped, "unexpected": bad}
+
+
+def main():
+    ap = argparse.ArgumentParser()
+    ap.add_argument("--jobs", type=int, default=16)
+    ap.add_argument("--only", default=None)
+    ap.add_argument("--checks", default=None)
+    ap.add_argument("--quiet", action="store_true")
+    a = ap.parse_args()
+    items = collect_items(a.only.split(",") if a.only else None, a.checks.split(",") if a.checks else None)
+    r = run_items(items, a.jobs, a.quiet)
+    print(f"selftest: {r['variants']} variants, {len(r['skipped_anchor_absent'])} skipped, {len(r['unexpected'])} unexpected outcomes")
+    return 1 if r["unexpected"] else 0
 
 
 if __name__ == "__main__":
